@@ -142,14 +142,17 @@ def render(sk, incdir, variant=0):
             exp["include2"] = p[1]
     lines.append("/*gpukern*/ void %s(const int n, /*gpuglmem*/ int* c0, /*gpuglmem*/ int* c1, /*gpuglmem*/ int* flags){" % name)
     nmark = 0
+    # every fourth skeleton writes an ordinary remark in front of each annotation of the kernel body (the annotation is then
+    # not the first comment of its line; the directive is found wherever it stands in the line)
+    rk = "// remark of skeleton %d " % k if k % 4 == 1 else ""
     for b in sk["blocks"]:
         v = b["var"]
         lim = b.get("limit", "n")
         exp["limits"][b["ctr"]] = lim
         if b["spell"] == "A":
-            lines.append("  int %s=0; //vectorize_over %s %s" % (v, v, lim))
+            lines.append("  int %s=0; %s//vectorize_over %s %s" % (v, rk, v, lim))
         else:
-            lines.append("  for (int %s=0; %s<%s; %s++){ //vectorize_over %s %s" % (v, v, lim, v, v, lim))
+            lines.append("  for (int %s=0; %s<%s; %s++){ %s//vectorize_over %s %s" % (v, v, lim, v, rk, v, lim))
         for st in b["body"]:
             if st[0] == "inc":
                 lines.append("    c%d[%s] += 1;" % (b["ctr"], v))
@@ -159,10 +162,10 @@ def render(sk, incdir, variant=0):
                 exp["counts"][b["ctr"]] += 1
             else:
                 assert nmark < 4
-                lines.append("    flags[%d] = 7; //only_for_context %s" % (nmark, xs(st[1])))
+                lines.append("    flags[%d] = 7; %s//only_for_context %s" % (nmark, rk, xs(st[1])))
                 exp["marks"].append((nmark, st[1]))
                 nmark += 1
-        lines.append("  //end_vectorize" if b["spell"] == "A" else "  }//end_vectorize")
+        lines.append(("  %s//end_vectorize" if b["spell"] == "A" else "  }%s//end_vectorize") % rk)
     l = "  flags[7] = flags[7] + 0; /* plain statement of skeleton %d */" % k
     lines.append(l)
     exp["plain"].append(l)
